@@ -77,6 +77,7 @@ func genAuthStr(r *hx.Rand, basicBody func() string) string {
 func newAuthenticateH() *H[headers.Authenticate] {
 	return &H[headers.Authenticate]{
 		name: "authenticate", kindU: 50, kindM: 51,
+		variants: authenticateVariantGrammar.gen,
 		unmarshal: func(s string) (headers.Authenticate, error) {
 			var h headers.Authenticate
 			err := h.Unmarshal(base.HeaderValue{s})
@@ -179,6 +180,7 @@ func genBasicBody(r *hx.Rand) string {
 func newAuthorizationH() *H[headers.Authorization] {
 	return &H[headers.Authorization]{
 		name: "authorization", kindU: 60, kindM: 61,
+		variants: authorizationVariantGrammar.gen,
 		unmarshal: func(s string) (headers.Authorization, error) {
 			var h headers.Authorization
 			err := h.Unmarshal(base.HeaderValue{s})
